@@ -145,7 +145,8 @@ impl ErrorDiagnostic for TypeCheckError {
                 ])
                 .with_notes(vec![inner_error]),
             TypeCheckError::DimensionRegistryError(e) => match &e.err {
-                crate::registry::RegistryError::EntryExists(_) => d.with_labels(vec![
+                crate::registry::RegistryError::EntryExists(_)
+                | crate::registry::RegistryError::ExponentOverflow => d.with_labels(vec![
                     e.span
                         .diagnostic_label(LabelStyle::Primary)
                         .with_message(inner_error),
